@@ -98,10 +98,15 @@ class GrammarParser:
             self._gettoken()
             a, z = self._parse_rhs()
             self._expect(PythonTokenTypes.OP, ']')
-            # Make it also possible that there is no token and change the
-            # state.
-            a.add_arc(z)
-            return a, z
+            # Make it also possible that there is no token. This needs new
+            # states: `a` and `z` might have arcs from and to other states
+            # (e.g. `['x'* 'y']`) that must not be able to use the shortcut.
+            aa = NFAState(self._current_rule_name)
+            zz = NFAState(self._current_rule_name)
+            aa.add_arc(a)
+            z.add_arc(zz)
+            aa.add_arc(zz)
+            return aa, zz
         else:
             a, z = self._parse_atom()
             value = self.value
@@ -109,13 +114,18 @@ class GrammarParser:
                 return a, z
             self._gettoken()
             # Make it clear that we can go back to the old state and repeat.
+            # Entering and leaving happens through new states, otherwise the
+            # surrounding items could enter or leave the loop in the wrong
+            # place (e.g. `('x'+ 'y')*`).
+            aa = NFAState(self._current_rule_name)
+            zz = NFAState(self._current_rule_name)
+            aa.add_arc(a)
+            z.add_arc(zz)
             z.add_arc(a)
-            if value == "+":
-                return a, z
-            else:
-                # The end state is the same as the beginning, nothing must
-                # change.
-                return a, a
+            if value == "*":
+                # The loop can be skipped entirely.
+                aa.add_arc(zz)
+            return aa, zz
 
     def _parse_atom(self):
         # atom: '(' rhs ')' | NAME | STRING
